@@ -198,16 +198,36 @@ Section RingProofs.
 
   Definition orthogonal (R : m33 T) : Prop := mmul ops (transpose R) R = ident ops.
 
-  (* invariants of the rotated matrix as polynomials in (R^T R, K): ring identities *)
+  (* adjugate (transposed cofactor matrix) *)
   Definition adj (m : m33 T) : m33 T :=
-    build (fun i j =>
-      let '(a, b) := match j with I0 => (I1, I2) | I1 => (I0, I2) | I2 => (I0, I1) end in
-      let '(c, d) := match i with I0 => (I1, I2) | I1 => (I0, I2) | I2 => (I0, I1) end in
-      let minor := rsub (rmul (get m a c) (get m b d)) (rmul (get m a d) (get m b c)) in
-      match i, j with
-      | I0, I1 | I1, I0 | I1, I2 | I2, I1 => rsub rO minor
-      | _, _ => minor
-      end).
+    let g := get m in
+    let mn a b c d := rsub (rmul (g a c) (g b d)) (rmul (g a d) (g b c)) in
+    ((mn I1 I2 I1 I2, rsub rO (mn I0 I2 I1 I2), mn I0 I1 I1 I2),
+     (rsub rO (mn I1 I2 I0 I2), mn I0 I2 I0 I2, rsub rO (mn I0 I1 I0 I2)),
+     (mn I1 I2 I0 I1, rsub rO (mn I0 I2 I0 I1), mn I0 I1 I0 I1)).
+
+  Ltac mat_eq := unfold adj, mmul, transpose, ident, build, sum3; cbn; repeat (f_equal; try ring).
+
+  Lemma inv2_trace_adj : forall M, inv2 ops M = trace ops (adj M).
+  Proof. intros M. open_m M. unfold inv2, trace, adj; cbn. ring. Qed.
+
+  Lemma inv2_transpose : forall M, inv2 ops (transpose M) = inv2 ops M.
+  Proof. intros M. open_m M. unfold inv2, transpose, build; cbn. ring. Qed.
+
+  Lemma adj_mmul : forall A B, adj (mmul ops A B) = mmul ops (adj B) (adj A).
+  Proof. intros A B. open_m A. open_m B. mat_eq. Qed.
+
+  Lemma trace_cyc : forall A B, trace ops (mmul ops A B) = trace ops (mmul ops B A).
+  Proof. intros A B. open_m A. open_m B. unfold trace, mmul, build, sum3; cbn. ring. Qed.
+
+  Lemma mmul_assoc : forall A B C, mmul ops (mmul ops A B) C = mmul ops A (mmul ops B C).
+  Proof. intros A B C. open_m A. open_m B. open_m C. mat_eq. Qed.
+
+  Lemma adj_ident : adj (ident ops) = ident ops.
+  Proof. mat_eq. Qed.
+
+  Lemma mmul_ident_r : forall A, mmul ops A (ident ops) = A.
+  Proof. intros A. open_m A. mat_eq. Qed.
 
   Lemma trace_rot_id : forall R K,
     trace ops (rot1 ops R K) = trace ops (mmul ops (mmul ops (transpose R) R) (transpose K)).
@@ -221,23 +241,18 @@ Section RingProofs.
     intros R K. open_m R. open_m K. unfold det, rot1, mmul, transpose, build, sum3; cbn. ring.
   Qed.
 
-  Lemma inv2_rot_id : forall R K,
-    inv2 ops (rot1 ops R K) =
-    trace ops (mmul ops (adj (mmul ops (transpose R) R)) (adj (transpose K))).
-  Proof.
-    intros R K. open_m R. open_m K.
-    unfold inv2, trace, adj, rot1, mmul, transpose, build, sum3; cbn. ring.
-  Qed.
-
   Lemma rot_invariants : forall R K, orthogonal R ->
     trace ops (rot1 ops R K) = trace ops K /\
     det ops (rot1 ops R K) = det ops K /\
     inv2 ops (rot1 ops R K) = inv2 ops K.
   Proof.
-    intros R K H. rewrite trace_rot_id, det_rot_id, inv2_rot_id. unfold orthogonal in H.
-    rewrite H. open_m K.
-    unfold trace, det, inv2, adj, mmul, transpose, ident, build, sum3; cbn.
-    repeat split; ring.
+    intros R K H. unfold orthogonal in H. repeat split.
+    - rewrite trace_rot_id, H. open_m K. unfold trace, mmul, transpose, ident, build, sum3; cbn.
+      ring.
+    - rewrite det_rot_id, H. open_m K. unfold det, ident, build; cbn. ring.
+    - rewrite rot1_formula, inv2_trace_adj, !adj_mmul, trace_cyc, mmul_assoc.
+      rewrite <- adj_mmul, H, adj_ident, mmul_ident_r, <- inv2_trace_adj.
+      apply inv2_transpose.
   Qed.
 
   (* characteristic polynomial det(lam*I - M) in terms of the three invariants *)
